@@ -237,6 +237,25 @@ def r1_2(F, R):
         sw = scope_switch(fn)
         if not sw:
             raise AnchorError("R1.2: no `match scope` in %s" % fn.name)
+        # no normal path may finish without consulting the scope (a "nothing changed" fast path ahead of the
+        # dispatch skips the purge of a global assignment); the only sound early-out is "no group is open"
+        if "run_impl" not in fn.name:
+            flow = Flow(fn)
+            empties = set()
+            for bi, b in enumerate(fn.blocks):
+                t = b["t"]
+                if t["k"] == "switch":
+                    og = flow.operand_origins(t["op"])
+                    calls = {strip_generics(v).split("::")[-1] for k, v in og if k == "call" and v}
+                    if calls & {"len", "is_empty"} and src_pred(og):
+                        empties.add(bi)
+            path = find_path(fn, [0], lambda b: is_return(fn, b), blocked={s[0] for s in sw} | empties | err_blocks(fn))
+            if path is not None:
+                R.violation("R1.2", name + "/bypass", "%s can return without consulting the assignment's scope (path %s): on that path a global "
+                            "assignment leaves the values saved by open groups in place, so a stale value is restored when they close" % (fn.name, fmt_path(fn, path)),
+                            fn.loc(fn.blocks[path[-2] if len(path) > 1 else path[0]]["t"]))
+            else:
+                R.ok("R1.2", name + "/no-bypass", "every normal path reaches the scope dispatch", "%s:%d" % (fn.file, fn.line), how="must-pass")
         for bi, loc_t, glob_t in sw:
             n += 1
             ok, msg, loc = purge_loop_check(F, fn, glob_t, elem_pred, src_pred)
@@ -562,11 +581,127 @@ def _field_owner_is(fn, pl, field, adt):
     return False
 
 
+# ------------------------------------------------------------------ R1.7
+
+PREFIX_COMPONENT = "texlang_stdlib::prefix::Component"
+
+
+def r1_7(F, R):
+    """The pending-\\global flag as a finite transition system over (sign(\\globaldefs), flag)."""
+    from ..edt import EDT, C, UNKNOWN
+    from .c08 import projections
+    R.rule("R1.7", "the pending-\\global flag is a finite function of (sign of \\globaldefs, flag): the transfer functions of set_scope and "
+                   "read_and_reset_global are extracted by finite-domain specialisation (3 sign classes x 2 flag values x 2 arguments, exhaustive) and the "
+                   "command-boundary invariant 'flag = Local' plus 'the hook returns TeX's scope' is checked for every command shape "
+                   "([\\global] assignment, [\\global]\\globaldefs=v)")
+    rr = _one_fn(F, PREFIX_COMPONENT + "::read_and_reset_global")
+    ss = _one_fn(F, PREFIX_COMPONENT + "::set_scope")
+    # structural precondition: globaldefs is only compared with 0 (so one representative per sign class is exhaustive)
+    n_use = 0
+    for fn in F.fns.values():
+        if fn.crate != "texlang_stdlib.lib":
+            continue
+        for owner, variant, field, place, node, is_store in projections(fn):
+            if owner == PREFIX_COMPONENT and field == "global_defs_value":
+                n_use += 1
+                nm = strip_generics(fn.name)
+                if nm in (PREFIX_COMPONENT + "::read_and_reset_global", PREFIX_COMPONENT + "::set_scope"):
+                    continue
+                if "get_globaldefs" in nm or c01_is_generated(fn) or nm.endswith("Default>::default"):
+                    continue
+                raise AnchorError("R1.7: %s uses Component.global_defs_value in an unrecognised way (%s)" % (fn.name, fn.loc(node)))
+    for fn in (rr, ss):
+        for b in fn.blocks:
+            for st in b["s"]:
+                if st["k"] == "=" and st["rv"]["k"] == "bin" and st["rv"]["op"] not in ("Eq", "Ne", "Lt", "Le", "Gt", "Ge"):
+                    raise AnchorError("R1.7: arithmetic on the flag state in %s" % fn.name)
+    R.floor("R1.7", "uses of global_defs_value", n_use, 3)
+
+    def scv(i):
+        return ("agg", SCOPE_TY, [], i, ["Local", "Global"][i])
+
+    def flag_after(paths, before):
+        outs = set()
+        for p in paths:
+            if p.end[0] != "return":
+                return None
+            if p.forks:
+                return None
+            f = before
+            for ev in p.events:
+                if ev[0] == "store" and ev[1].split(".")[-1] == "scope":
+                    if "Local" in str(ev[2]):
+                        f = 0
+                    elif "Global" in str(ev[2]):
+                        f = 1
+                    else:
+                        return None
+            r = None
+            if p.ret is not None and p.ret[0] == "agg" and p.ret[1] == SCOPE_TY:
+                r = p.ret[3]
+            outs.add((r, f))
+        if len(outs) != 1:
+            return None
+        return outs.pop()
+
+    T_hook = {}
+    T_set = {}
+    for gd in (-1, 0, 1):
+        for fl in (0, 1):
+            mem = {"(*_1).global_defs_value": C(gd), "(*_1).scope": scv(fl)}
+            e = EDT(F, rr, interesting_fields=["scope"])
+            res = flag_after(e.run(mem=dict(mem)), fl)
+            if res is None or res[0] is None:
+                raise AnchorError("R1.7: read_and_reset_global is not a finite function of (sign, flag) at gd=%d flag=%d" % (gd, fl))
+            T_hook[(gd, fl)] = res
+            for arg in (0, 1):
+                e = EDT(F, ss, interesting_fields=["scope"], arg_assume={2: scv(arg)})
+                res = flag_after(e.run(mem=dict(mem)), fl)
+                if res is None:
+                    raise AnchorError("R1.7: set_scope is not a finite function of (sign, flag, arg) at gd=%d flag=%d arg=%d" % (gd, fl, arg))
+                T_set[(gd, fl, arg)] = res[1]
+    names = {0: "Local", 1: "Global"}
+    loc = "%s:%d" % (rr.file, rr.line)
+    n = 0
+    for gd in (-1, 0, 1):
+        fl = 0  # command-boundary invariant
+        for prefixed in (False, True):
+            f1 = T_set[(gd, fl, 1)] if prefixed else fl
+            ret, f2 = T_hook[(gd, f1)]
+            want = 0 if gd < 0 else 1 if gd > 0 else (1 if prefixed else 0)
+            inst = "globaldefs%s0/%sassignment" % ("<" if gd < 0 else ">" if gd > 0 else "=", "\\global " if prefixed else "")
+            n += 1
+            if ret != want:
+                R.violation("R1.7", inst + "/scope", "with \\globaldefs %s 0 a %s assignment is performed with scope %s; TeX requires %s" % (
+                    "<" if gd < 0 else ">" if gd > 0 else "=", "\\global-prefixed" if prefixed else "plain", names[ret], names[want]), loc)
+            elif f2 != 0:
+                R.violation("R1.7", inst + "/stale-flag", "with \\globaldefs %s 0, after a %s assignment the pending-\\global flag is still %s: it leaks into a later "
+                            "assignment once \\globaldefs returns to 0 (\\global must affect exactly the one assignment it prefixes)" % (
+                                "<" if gd < 0 else ">" if gd > 0 else "=", "\\global-prefixed" if prefixed else "plain", names[f2]), loc)
+            else:
+                R.ok("R1.7", inst, "scope %s, flag consumed" % names[ret], loc, how="finite-state")
+    R.floor("R1.7", "command shapes", n, 6)
+    R.extra["R1.7_transfer"] = {"hook": {"%d,%s" % (k[0], names[k[1]]): [names[v[0]], names[v[1]]] for k, v in T_hook.items()},
+                                "set_scope": {"%d,%s,%s" % (k[0], names[k[1]], names[k[2]]): names[v] for k, v in T_set.items()}}
+
+
+def c01_is_generated(fn):
+    return _is_serde_visitor(fn) or fn.raw.get("mac") in ("Serialize", "Deserialize", "serde::Serialize", "serde::Deserialize")
+
+
+def _one_fn(F, name):
+    c = [f for f in F.fns.values() if strip_generics(f.name) == name]
+    if len(c) != 1:
+        raise AnchorError("anchor fn %s: %d matches" % (name, len(c)))
+    return c[0]
+
+
 def run(F, R, tier):
     r1_1(F, R)
     r1_2(F, R)
     r1_345(F, R)
     r1_6(F, R)
+    r1_7(F, R)
     if tier == "thorough":
         from .. import witness
         witness.run(R, ["C01"])
